@@ -127,3 +127,12 @@ package keeper
 //@ modifies xibc(ctx)
 //@ callsite ToggleClient [as-proposed] chainName == p.ChainName && newClientState == callres("UnpackClientState", 0) && newConsensusState == callres("UnpackConsensusState", 0)
 //@ ensures [errors-propagate] result1 == nil ==> ncalls("ToggleClient") == 1 && callsok("ToggleClient")
+
+// ---- genesis export: every stored consensus state is read back under the height it was stored at (C13, C19) ----
+// The loop body is verified for an arbitrary key of the consensus-state family (arbitrary valid chain name,
+// arbitrary revision number and height, i.e. all byte patterns of the binary height).
+// verif:import types github.com/teleport-network/teleport/x/xibc/core/client/types
+
+// verif:func (Keeper).IterateConsensusStates
+//@ loop 1 forkey c string, rev uint64, h uint64 :: host.FullConsensusStateKey(c, types.NewHeight(rev, h)) requires noslash(c) && len(c) != 0
+//@ loop 1 continue [parse-back] ncalls("cb") == 1 && callarg("cb", 0) == c && callarg("cb", 1).Height.RevisionNumber == rev && callarg("cb", 1).Height.RevisionHeight == h
